@@ -6,6 +6,7 @@ import (
 	"sync"
 	"time"
 
+	pg_query "github.com/cossacklabs/pg_query_go/v5"
 	"github.com/jackc/pgx/v5/pgproto3"
 )
 
@@ -226,16 +227,21 @@ func (f *FakeServer) serve() {
 					continue
 				}
 			}
-			p, err := f.Store.Prepare(q.String, nil)
-			if err == nil {
-				var res *Result
-				res, err = f.Store.Exec(p, nil)
+			// a simple Query may hold several statements: each is answered in turn, the first error ends the
+			// message, one ReadyForQuery closes it
+			for _, part := range splitStatements(q.String) {
+				p, err := f.Store.Prepare(part, nil)
 				if err == nil {
-					f.sendResult(be, res, nil, true)
+					var res *Result
+					res, err = f.Store.Exec(p, nil)
+					if err == nil {
+						f.sendResult(be, res, nil, true)
+					}
 				}
-			}
-			if err != nil {
-				sendErr(be, err)
+				if err != nil {
+					sendErr(be, err)
+					break
+				}
 			}
 			be.Send(&pgproto3.ReadyForQuery{TxStatus: 'I'})
 			be.Flush()
@@ -338,4 +344,26 @@ func (f *FakeServer) serve() {
 			return
 		}
 	}
+}
+
+// splitStatements cuts the text of a simple Query into its statements (by the parser's statement locations);
+// text the parser refuses, and single statements, are returned whole.
+func splitStatements(sql string) []string {
+	tree, err := pg_query.Parse(sql)
+	if err != nil || len(tree.Stmts) <= 1 {
+		return []string{sql}
+	}
+	var out []string
+	for _, st := range tree.Stmts {
+		from, n := int(st.StmtLocation), int(st.StmtLen)
+		if from < 0 || from > len(sql) {
+			return []string{sql}
+		}
+		to := len(sql)
+		if n > 0 && from+n <= len(sql) {
+			to = from + n
+		}
+		out = append(out, sql[from:to])
+	}
+	return out
 }
